@@ -378,6 +378,12 @@ def gen_op(rng, tables, optional=True):
         # prints the numbers, which is not what this check is about)
         pools = [rng.choice([["a", "b", "n/a"], [2.5, 7.25, 0.125]]) for _ in dst]
         mp = [list(k) + [rng.choice(pool) for pool in pools] for k in keys]
+        if len(mp) >= 2 and rng.random() < 0.4:
+            # one key listed twice (the entries differ, so the list is still a set of unique items): the first one counts
+            k0 = rng.randrange(0, len(mp) - 1)
+            again = list(mp[k0][:len(src)]) + [rng.choice(pool) for pool in pools]
+            if again != mp[k0]:
+                mp.insert(rng.randrange(k0 + 1, len(mp)), again)
         p = dict(source_columns=src, destination_columns=dst, map_list=mp, ignore_missing=ign)
         if ints:
             p["integer_sources"] = ints
